@@ -246,7 +246,16 @@ class Gen:
     def macro_call(self):
         name, flags = self.r.choice(self.c.macros)
         extra = self.r.choice([0, 0, 0, 1])
-        return ("macro", name, [self.intlike_noppl() if f else self.param() for f in flags] + [self.param() for _ in range(extra)])
+        def arg(f):
+            if getattr(self, "in_macro", False) and self.vars_in_scope and self.r.random() < 0.4:
+                # a macro passes its own parameters on (in any order)
+                v = self.r.choice(self.vars_in_scope)
+                if f:
+                    self.intlike_vars.add(v)
+                return ("const", v)
+            return self.intlike_noppl() if f else self.param()
+
+        return ("macro", name, [arg(f) for f in flags] + [self.param() for _ in range(extra)])
 
     def intlike_noppl(self):
         return self.intlike()
@@ -387,10 +396,13 @@ class Gen:
         saved = (self.c.macros, self.c.macro_p, self.labels_defined, self.vars_in_scope)
         out = []
         specs = [None] * n
+        # parameter names: private to each macro, or the same few names in every macro (a caller then passes `$q1` for the
+        # callee's `$q0`: substitution has to be simultaneous)
+        shared_names = self.r.random() < 0.5
         # callees first, so that the requirements on their arguments are known when their callers are generated
         for i in reversed(range(n)):
             name, nv = names[i]
-            vars_ = [f"$p{i}_{k}" for k in range(nv)]
+            vars_ = [f"$q{k}" for k in self.r.sample(range(4), nv)] if shared_names else [f"$p{i}_{k}" for k in range(nv)]
             self.c.macros = [x for x in specs[i + 1:] if x is not None] + list(callable_extra)
             self.c.macro_p = 0.25 if self.c.macros else 0.0
             self.labels_defined = []
@@ -541,6 +553,8 @@ def shape_catalogue():
         case = lambda n: ("case", ("Case", (("int", n),)))
         prog(f"switch_basic_{tname}", [("switch", sw, [(case(1), [_u(1), ("ctrl", "break")]), (case(2), [_u(2)]), (("default",), [_u(3)])])] + tail)
         prog(f"switch_fall_{tname}", [("switch", sw, [(case(1), [_u(1)]), (case(2), []), (case(3), [_u(2), ("ctrl", "break")]), (case(4), [_u(3)])])] + tail)
+        prog(f"switch_fall_into_lonejump_{tname}", [("label", "s"), _u(9), ("switch", sw, [(case(1), [_u(1)]), (case(2), []), (case(3), [("jump", "s")]), (case(4), [_u(2)])]), _u(3)] + tail)
+        prog(f"switch_fall_into_onlybreak_{tname}", [("switch", sw, [(case(1), [_u(1)]), (case(2), []), (case(3), []), (case(4), [("ctrl", "break")]), (case(5), [_u(2)])]), _u(3)] + tail)
         prog(f"switch_default_first_{tname}", [("switch", sw, [(("default",), [_u(1)]), (case(1), [_u(2), ("ctrl", "break")]), (case(2), [_u(3)])])] + tail)
         prog(f"switch_default_mid_{tname}", [("switch", sw, [(case(1), [_u(1)]), (("default",), [_u(2), ("ctrl", "break")]), (case(2), [_u(3)])])] + tail)
         prog(f"switch_default_grouped_{tname}", [("switch", sw, [(case(1), []), (("default",), []), (case(2), [_u(3), ("ctrl", "break")]), (case(3), [_u(4)])])] + tail)
